@@ -370,3 +370,67 @@ func Axioms(ts []*smt.Term) []*smt.Term {
 	}
 	return out
 }
+
+// IfaceImpls finds the elys implementations (hook multiplexers excluded) of the interface
+// method an interface contract is attached to and records the interface's parameter names.
+func (e *Engine) IfaceImpls(ct *sym.Contract) []*ssa.Function {
+	parts := strings.SplitN(ct.Key, ".", 2)
+	if len(parts) != 2 {
+		return nil
+	}
+	var it *types.Interface
+	var named *types.Named
+	for _, n := range e.named {
+		if n.Obj().Name() == parts[0] && n.Obj().Pkg().Path() == ct.PkgPath {
+			if i, ok := n.Underlying().(*types.Interface); ok {
+				it, named = i, n
+			}
+		}
+	}
+	if it == nil {
+		return nil
+	}
+	_ = named
+	for i := 0; i < it.NumMethods(); i++ {
+		if m := it.Method(i); m.Name() == parts[1] {
+			sig := m.Type().(*types.Signature)
+			ct.Alias = []string{"recv"}
+			for j := 0; j < sig.Params().Len(); j++ {
+				ct.Alias = append(ct.Alias, sig.Params().At(j).Name())
+			}
+		}
+	}
+	var out []*ssa.Function
+	for _, n := range e.named {
+		if _, isIface := n.Underlying().(*types.Interface); isIface {
+			continue
+		}
+		path := n.Obj().Pkg().Path()
+		if strings.Contains(path, "/mocks") || strings.Contains(path, "/testutil") || strings.Contains(path, "/simulation") || strings.HasPrefix(n.Obj().Name(), "Multi") {
+			continue
+		}
+		for _, t := range []types.Type{n, types.NewPointer(n)} {
+			if types.Implements(t, it) {
+				ms := e.Prog.MethodSets.MethodSet(t)
+				for i := 0; i < ms.Len(); i++ {
+					if ms.At(i).Obj().Name() == parts[1] {
+						if f := e.Prog.MethodValue(ms.At(i)); f != nil && f.Synthetic == "" {
+							dup := false
+							for _, o := range out {
+								if o == f {
+									dup = true
+								}
+							}
+							if !dup {
+								out = append(out, f)
+							}
+						}
+					}
+				}
+				break
+			}
+		}
+	}
+	sort.Slice(out, func(i, j int) bool { return out[i].String() < out[j].String() })
+	return out
+}
